@@ -4,7 +4,7 @@ CONSTANTS
   FactorNames <- N_tiny
   Powers <- P_pm1
   MaxFactors = 1
-  Mags <- M_pos
+  Mags <- M_pos0
   TargetNames <- N_tiny
   TargetPowers <- P_pm1
   MaxTFactors = 1
